@@ -7,6 +7,7 @@ suffix = sys.argv[1]
 props = {json.loads(l)['id']: json.loads(l) for l in open('/verif/properties.jsonl')}
 tmpl = open('/tmp/mut/C03b.prompt.txt').read() if os.path.exists('/tmp/mut/C03b.prompt.txt') else None
 head, rest = tmpl.split('THE PROPERTY', 1)
+head = head.replace('never use pkill/killall by name.', 'never use pkill/killall by name, and never use `git stash` (the stash is shared between all worktrees of the repository; use `git diff > file` / `git apply -R` instead).')
 task = 'TASK' + rest.split('\nTASK', 1)[1]
 for pid in sys.argv[2:]:
     p = props[pid]
